@@ -250,6 +250,73 @@ def run_in_process(ctx, n):
     return len(seen)
 
 
+def run_many_files(ctx):
+    """sizes that everyday use does not reach: 24 and 40 data files in one run (one of them large, so that any worker pool would
+    finish the files out of order), 20 rules files, and a test directory with rules files whose names are prefixes of one
+    another (which file claims an ambiguous spec must not depend on a hash seed). Same bytes in every fresh process, and the
+    per-file reports in the order the files were given."""
+    jobs, meta = [], []
+    big = {'Resources': {'r%d' % i: {'Type': 'AWS::S3::Bucket', 'Properties': {'Size': i, 'Tags': [{'Key': 'k%d' % j, 'Value': 'v'} for j in range(30)]}} for i in range(150)}}
+    small = lambda i: {'Resources': {'b': {'Type': 'AWS::S3::Bucket', 'Properties': {'Size': i}}}}
+    rules = 'rule sized {\n  Resources.*[ Type == "AWS::S3::Bucket" ].Properties.Size >= 3 <<too small>>\n}\nrule tagged {\n  Resources.*.Properties.Tags[*].Key exists\n}\n'
+    for nfiles in (24, 40):
+        d = os.path.join(ctx.wd, 'many%d' % nfiles)
+        files = {'r.guard': rules}
+        names = []
+        for i in range(nfiles):
+            nm = 'data/f%02d.json' % i
+            files[nm] = json.dumps(big if i == 0 else small(i))
+            names.append(nm)
+        for i in range(20):
+            files['rules/r%02d.guard' % i] = 'rule r%02d {\n  Resources.*.Properties.Size >= %d\n}\n' % (i, i)
+        e2e.write_files(d, files)
+        dargs = [x for nm in names for x in ('-d', nm)]
+        for lab, args, cmpk in (('many-data:s-json', ['validate', '-r', 'r.guard'] + dargs + ['--structured', '-o', 'json', '-S', 'none'], 'bytes'),
+                                ('many-data:s-junit', ['validate', '-r', 'r.guard'] + dargs + ['--structured', '-o', 'junit', '-S', 'none'], 'junit'),
+                                ('many-data:console', ['validate', '-r', 'r.guard', '-d', 'data', '-S', 'all'], 'lines'),
+                                ('many-data:dir-json', ['validate', '-r', 'r.guard', '-d', 'data', '--structured', '-o', 'yaml', '-S', 'none'], 'bytes'),
+                                ('many-rules:s-json', ['validate', '-r', 'rules', '-d', 'data/f01.json', '--structured', '-o', 'json', '-S', 'none'], 'bytes'),
+                                ('many-rules:console', ['validate', '-r', 'rules', '-d', 'data/f01.json', '-d', 'data/f05.json', '-S', 'all'], 'lines')):
+            for rep in range(REPEAT):
+                jobs.append({'args': args, 'cwd': d}); meta.append((nfiles, lab, cmpk, rep, names))
+    d = os.path.join(ctx.wd, 'prefixes')
+    spec = lambda rule, want: json.dumps([{'name': 'c', 'input': {'x': 1}, 'expectations': {'rules': {rule: want}}}])
+    e2e.write_files(d, {'t/bucket.guard': 'rule b {\n  x == 1\n}\n', 't/bucket_policy.guard': 'rule p {\n  x == 2\n}\n', 't/bucket_policy_v2.guard': 'rule q {\n  x exists\n}\n',
+                        't/tests/bucket_tests.yaml': spec('b', 'PASS'), 't/tests/bucket_policy_tests.yaml': spec('p', 'FAIL'), 't/tests/bucket_policy_v2_tests.yaml': spec('q', 'PASS')})
+    for lab, args, cmpk in (('prefix-names:plain', ['test', '-d', 't'], 'lines'), ('prefix-names:json', ['test', '-d', 't', '-o', 'json'], 'bytes'),
+                            ('prefix-names:junit', ['test', '-d', 't', '-o', 'junit'], 'junit')):
+        for rep in range(REPEAT * 2):
+            jobs.append({'args': args, 'cwd': d}); meta.append((0, lab, cmpk, rep, None))
+    res = e2e.run_many(jobs)
+    groups = {}
+    for (k, lab, cmpk, rep, names), r in zip(meta, res):
+        groups.setdefault((k, lab, cmpk), []).append((r, names))
+    n = 0
+    for (k, lab, cmpk), rs in groups.items():
+        info = {'class': 'process-determinism', 'mode': lab, 'files': k}
+        n += 1
+        codes = set(r[0] for r, _ in rs)
+        if len(codes) != 1:
+            ctx.failing('%s (%s files): exit code differs between identical runs: %s' % (lab, k, sorted(map(str, codes))), info, found=True)
+            continue
+        outs = set(json.dumps(console_norm(r[1])) if cmpk == 'lines' else mask(cmpk, r[1]) for r, _ in rs)
+        if len(outs) != 1:
+            a, b = list(outs)[:2]
+            ctx.failing('%s (%s files): output differs between identical runs in fresh processes' % (lab, k), dict(info, first=str(a)[:400], second=str(b)[:400]), found=True)
+            continue
+        names = rs[0][1]
+        if lab == 'many-data:s-json' and names:
+            try:
+                got = [os.path.basename(fr['name']) for fr in json.loads(rs[0][0][1].decode())]
+            except Exception as e:
+                got = 'unparsable: %s' % e
+            if got != [os.path.basename(x) for x in names]:
+                ctx.failing('%s: the reports are not in the order the %s data files were given: %s' % (lab, k, str(got)[:300]), info, found=True)
+    ctx.coverage['many_files_groups'] = n
+    ctx.coverage['evaluations'] += len(jobs)
+    return n
+
+
 def run(ctx):
     ctx.build(cli=True)
     pr = ctx.proofs('C05')
@@ -262,7 +329,7 @@ def run(ctx):
     n1 = run_processes(ctx, 60 if thorough else 14, thorough)
     n2 = run_in_process(ctx, 60 if thorough else 25)
     n3 = run_environment(ctx, 40 if thorough else 10)
-    n4 = run_history(ctx, 40 if thorough else 10)
+    n4 = run_history(ctx, 40 if thorough else 10) + run_many_files(ctx)
     ctx.coverage['distinct_nontrivial'] = n1 + n2 + n3 + n4
     ctx.coverage['rule'] = ('group = (generated rules + document, command and output mode); each group is run in %d fresh processes and compared (bytes for '
                             'JSON/YAML/SARIF/print-json/parse-tree/rulegen, JUnit with time attributes masked, sorted lines for console output, stderr likewise); '
